@@ -21,3 +21,4 @@ pub struct BoxedErr { x: u8 }
 // touching anything it borrows (the borrow simply ends: `has_resolved`).
 pub assume_specification<T>[core::mem::forget::<T>](t: T)
     ensures has_resolved(t);
+pub type Read<'a, T> = &'a T;
